@@ -10,9 +10,10 @@ RULE = ("scripted async<int> coroutines: every start mode (detach discarded/awai
         "has a coroutine bound to a future or a parent that finishes, or an unstarted frame that is destroyed; distinct = distinct program")
 SCOPE = ("async<T>: start_coro/start_promise/start/detach/co_awaiter/~async, async_promise::final_awaiter/resolve/unhandled_exception; "
          "future<T>::set/resolve/value, promise<T>::claim — T = int, single thread")
-ASSUMPTIONS = ["result type int only (void and move-only instantiate the same templates; not exercised yet)",
-               "join() and thread_pool::run are not modelled (blocking wait / other thread); frame allocation is observed through the "
-               "argument guard's destructor, AddressSanitizer (double free / use after free) and LeakSanitizer, not through a counting allocator"]
+ASSUMPTIONS = ["scripted VM: result type int; the direct-API part (engine aapi) adds join() with int/std::string/std::vector/unique_ptr/void results and "
+               "with_allocator frames of free/member/lambda coroutines with a size-checking storage",
+               "thread_pool::run is not modelled; in the VM part frame destruction is observed through the argument guard's destructor, "
+               "AddressSanitizer and LeakSanitizer"]
 
 L = lambda *a: list(a)
 
@@ -89,7 +90,32 @@ def gen(seed, tier):
     return cases
 
 
+def gen_api(seed, tier):
+    """direct API scenarios (engine aapi): join() x result kinds x completion; with_allocator frames x coroutine flavour x parameter count"""
+    rng = random.Random(seed * 911 + 44)
+    cases = []
+    i = 0
+    for kind in range(5):
+        for susp in range(3):
+            ops = [L(1, kind, susp, rng.randint(0, 200)) for _ in range(2 if tier == "quick" else 6)]
+            cases.append(Case("aapi", "j%d" % i, ops)); i += 1
+    for how in range(3):
+        for npar in range(1, 5):
+            ops = [L(2, how, npar, start, rng.randint(1, 50)) for start in range(4)]
+            cases.append(Case("aapi", "a%d" % i, ops)); i += 1
+    for _ in range(10 if tier == "quick" else 100):
+        ops = []
+        for _ in range(rng.randint(2, 8)):
+            if rng.random() < 0.5: ops.append(L(1, rng.randint(0, 4), rng.randint(0, 2), rng.randint(-50, 300)))
+            else: ops.append(L(2, rng.randint(0, 2), rng.randint(1, 4), rng.randint(0, 3), rng.randint(-9, 99)))
+        if rng.random() < 0.2: ops.insert(rng.randrange(len(ops) + 1), rng.choice([L(1, 7, 0, 0), L(2, 0, 5, 0, 1), L(3), L(2, 3, 1, 0, 1)]))
+        cases.append(Case("aapi", "r%d" % i, ops)); i += 1
+    return cases
+
+
 def nontrivial(case, model_obs):
+    if case.engine == "aapi":
+        return any(l.split()[0] == "0" for l in model_obs if l)
     bound = {a[1] for a in events(model_obs, 16) if a[2] in ("1", "2")}
     fin = {a[1] for a in events(model_obs, 3)}
     started = {a[1] for a in events(model_obs, 16)}
@@ -99,6 +125,10 @@ def nontrivial(case, model_obs):
 
 def signature(case, impl_obs, model_obs):
     last = impl_obs[-1] if impl_obs else ""
+    if case.engine == "aapi":
+        if last.startswith("CRASH"):
+            return "aapi:" + (last.split()[1] if len(last.split()) > 1 else "crash")
+        return "aapi:" + (last if last in ("HANG", "MISSING") else "oracle")
     if last.startswith("CRASH"):
         return "vm4:" + (last.split()[1] if len(last.split()) > 1 else "crash")
     if last in ("HANG", "MISSING"):
@@ -106,4 +136,5 @@ def signature(case, impl_obs, model_obs):
     return "vm4:oracle"
 
 
-PARTS = [{"name": "vm", "harness": "vm.cpp", "gen": gen, "timeout_case": 10}]
+PARTS = [{"name": "vm", "harness": "vm.cpp", "gen": gen, "timeout_case": 10},
+         {"name": "api", "harness": "seq_async.cpp", "gen": gen_api, "timeout_case": 10}]
